@@ -6,6 +6,8 @@ import Qryn.Proofs.InternalCompose
 import Qryn.Proofs.InternalEndToEnd
 import Qryn.Proofs.InternalPathSyntax
 import Qryn.Proofs.InternalMetricBridge
+import Qryn.Proofs.InternalAggBridge
+import Qryn.Gen.InternalAgg
 import Qryn.Read.JsonPathSyntax
 import Qryn.LogQL.PostMetric
 import Qryn.Gen.InternalPlanner
@@ -616,7 +618,7 @@ theorem engines_agree (E : Env V) (h0 : E.o.isNum [] = false) (c : LogQL.Ctx) (d
 /-- **the split point** (`GetBreakpoint` + `breakScript`): ClickHouse gets exactly the stages before the first one
     it cannot run (`json` without parameters, `logfmt`, `line_format`), the in-process engine that stage and
     everything after it; without such a stage nothing is split. -/
-theorem split_sound (tags : List StageTag) :
+theorem split_sound (tags : List Read.StageTag) :
     match breakScript (getBreakpoint tags false) tags with
     | (ch, some internal) => ch ++ internal = tags ∧ (∀ t ∈ ch, t.breaks = false) ∧ ∃ t rest, internal = t :: rest ∧ t.breaks = true
     | (ch, none) => ch = tags ∧ ∀ t ∈ tags, t.breaks = false := by
@@ -1148,6 +1150,204 @@ theorem engines_agree_rangeAgg_cmp (parse : Bytes → Option Rat) (o : Oracles) 
     rw [compareVal_rat parse, hev, ← h4]
     exact hpt2
 
+/-! ### unwrap functions and `by`/`without`: the in-process engine over ClickHouse's rows vs ClickHouse alone (extension c09y) -/
+
+/-- first/last_over_time on corresponding groups. In process: the value of the entry that arrives first / last in the
+    direction of the request (`dirFn`), i.e. of an entry with the least / greatest timestamp (`first_over_time_is_earliest`);
+    ClickHouse: `argMin/argMax(value, timestamp_ns)` = C08's `firstBy`/`lastBy`. They agree when entries of one output
+    series that share a timestamp share the value — with a real tie both engines follow the order their rows are read in
+    (C08 `first_last_any_order_counterexample`, finding C08/first-last-tie-follows-row-order): the engines cannot differ
+    without a tie. -/
+theorem valAgree_firstLast (o : Oracles) (parse : Bytes → Option Rat) (dur : Nat) (asc : Bool) (fn : Read.UnwrapFn) (fn' : LogQL.UnwrapFn)
+    (hfn : toUnwrap fn = some fn') (hfl : fn = .firstOverTime ∨ fn = .lastOverTime)
+    (rows : List (Entry Rat)) (hs : TsOrdered asc rows)
+    (hnt : ∀ e ∈ rows, ∀ e' ∈ rows, e.labels = e'.labels → e.ts = e'.ts → e.val = e'.val) :
+    ValAgree o parse dur (dirFn asc fn) fn' rows := by
+  intro grp l hsub hne hsame hp
+  have hsl : TsOrdered asc l := List.Pairwise.sublist hsub hs
+  have hmem : ∀ p, p ∈ grp ↔ ∃ e ∈ l, (e.ts, e.val) = p := by
+    intro p; rw [← hp.mem_iff]; simp [List.mem_map]
+  have hin : ∀ e ∈ l, e ∈ rows := fun e he => hsub.subset he
+  cases hg : grp with
+  | nil =>
+    rw [hg] at hp
+    have := hp.eq_nil
+    simp at this
+    exact absurd this hne
+  | cons p ps =>
+    rw [← hg]
+    rcases hfl with rfl | rfl
+    · simp only [toUnwrap, Option.some.injEq] at hfn; subst hfn
+      obtain ⟨e, he, hval, hmin⟩ := first_over_time_is_earliest (ratOps parse) dur asc l hne hsl
+      rw [hval]
+      have hv : unwrapVal o .firstOT dur grp = LogQL.firstBy grp := by rw [hg]; rfl
+      rw [hv]
+      cases hf : LogQL.firstBy grp with
+      | none => rw [hg] at hf; simp [LogQL.firstBy] at hf
+      | some v0 =>
+        obtain ⟨t, htm, htmin⟩ := firstBy_spec grp v0 hf
+        obtain ⟨e', he', hee⟩ := (hmem _).mp htm
+        have h1 : t ≤ e.ts := htmin (e.ts, e.val) ((hmem _).mpr ⟨e, he, rfl⟩)
+        have h2 : e.ts ≤ e'.ts := hmin e' he'
+        have h3 : e'.ts = t := (Prod.mk.inj hee).1
+        have h4 : e'.val = v0 := (Prod.mk.inj hee).2
+        have : e.val = e'.val := hnt e (hin e he) e' (hin e' he') (hsame e he e' he') (by omega)
+        rw [this, h4]
+    · simp only [toUnwrap, Option.some.injEq] at hfn; subst hfn
+      obtain ⟨e, he, hval, hmax⟩ := last_over_time_is_latest (ratOps parse) dur asc l hne hsl
+      rw [hval]
+      have hv : unwrapVal o .lastOT dur grp = LogQL.lastBy grp := by rw [hg]; rfl
+      rw [hv]
+      cases hf : LogQL.lastBy grp with
+      | none => rw [hg] at hf; simp [LogQL.lastBy] at hf
+      | some v0 =>
+        obtain ⟨t, htm, htmax⟩ := lastBy_spec grp v0 hf
+        obtain ⟨e', he', hee⟩ := (hmem _).mp htm
+        have h1 : e.ts ≤ t := htmax (e.ts, e.val) ((hmem _).mpr ⟨e, he, rfl⟩)
+        have h2 : e'.ts ≤ e.ts := hmax e' he'
+        have h3 : e'.ts = t := (Prod.mk.inj hee).1
+        have h4 : e'.val = v0 := (Prod.mk.inj hee).2
+        have : e.val = e'.val := hnt e (hin e he) e' (hin e' he') (hsame e he e' he') (by omega)
+        rw [this, h4]
+
+/-- the value functions agree on corresponding groups, for every unwrap function both engines implement: the five
+    order-free ones outright, first/last under the order of arrival and the tie condition -/
+theorem valAgree_all (o : Oracles) (parse : Bytes → Option Rat) (dur : Nat) (asc : Bool) (fn : Read.UnwrapFn) (fn' : LogQL.UnwrapFn)
+    (hfn : toUnwrap fn = some fn') (rows : List (Entry Rat))
+    (hord : (fn = .firstOverTime ∨ fn = .lastOverTime) → TsOrdered asc rows ∧
+      ∀ e ∈ rows, ∀ e' ∈ rows, e.labels = e'.labels → e.ts = e'.ts → e.val = e'.val) :
+    ValAgree o parse dur (dirFn asc fn) fn' rows := by
+  by_cases hfl : fn = .firstOverTime ∨ fn = .lastOverTime
+  · exact valAgree_firstLast o parse dur asc fn fn' hfn hfl rows (hord hfl).1 (hord hfl).2
+  · intro grp l _ hne _ hp
+    exact valAgree_orderFree o parse dur asc fn fn' hfn (fun h => hfl (Or.inl h)) (fun h => hfl (Or.inr h)) grp l hne hp
+
+/-- the in-process plan of `fn({sel} filters | unwrap lbl [d]) [by/without (…)]` when the hand-over is at the selector:
+    `| unwrap`, the by/without planner, `UnwrapAggPlanner` -/
+def unwrapPlan (lbl : Bytes) (fn : Read.UnwrapFn) (dur : Nat) (g? : Option Grouping) : Plan Rat :=
+  ⟨[.unwrap lbl], some (.unwrap fn, dur), g?.map toBW, none, none⟩
+
+/-- **engines_agree_unwrapAgg — rate, sum/avg/min/max/first/last_over_time over `| unwrap`, with or without a grouping
+    clause on the range aggregation** (every unwrap function both engines implement; stddev/stdvar_over_time are refused
+    in process: `unsupported_functions_refused`). The same query answered two ways. In process: ClickHouse evaluates the
+    statement of `{sel} filters` (SQL semantics of the real statement), the getter scans the rows, any batching,
+    `internal_planner` unwraps, cuts the labels (`by`/`without`) and aggregates (`Read.runPlan`; its reading `evalPlan` by
+    `metricPlan_meets_logql` under `MetricOk`). ClickHouse alone: the statement of the whole query returns C08's direct
+    reading (`plan_metric_correct_unwrap`), whose points before the step stage are `LogQL.rangePoints`. For every label set,
+    bucket start and value the first has that sample iff the second has it. Idealisation and hypotheses: Float64 = exact
+    rationals on both sides (C08's); the two number parsers read the same number (`hnum`: `strconv.ParseFloat` — not applied
+    to the empty text — vs `toFloat64OrZero`); window of whole range buckets (what `FixPeriodPlanner` hands to both
+    engines); `SeriesStoreOk`; `MetricOk` (series cap, and the in-process fingerprint separates the kept label sets);
+    with a grouping clause `GroupHashOk` (cityHash64 separates the kept label sets); for first/last the rows arrive in
+    timestamp order in the direction of the request (ORDER BY of the statement) and entries of one output series sharing a
+    timestamp share the value (the tie finding of C08). -/
+theorem engines_agree_unwrapAgg (parse : Bytes → Option Rat) (o : Oracles) (E : Env Rat) (hE : E.num = ratOps parse)
+    (h0 : E.o.isNum [] = false) (c : LogQL.Ctx) (hn : c.namesOk) (d : LokiDb) (hd : SeriesStoreOk o c d)
+    (ms : List Matcher) (hm : ms.length ≤ 63) (fs : List Stage)
+    (label : String) (lbl : Bytes) (hlbl : label.toUTF8.toList = lbl) (hent : label = "_entry" ↔ lbl = entryKey)
+    (hnum : ∀ s : Bytes, o.toFloat s = ((if s = [] then none else parse s).getD 0))
+    (fn : Read.UnwrapFn) (fn' : LogQL.UnwrapFn) (hfn : toUnwrap fn = some fn') (g? : Option Grouping)
+    (hgk : ∀ gg, g? = some gg → GroupHashOk o c d ⟨ms, fs⟩ gg)
+    (dur k n : Nat) (hdur : 0 < dur) (hfrom : c.fromNs = (k : Int) * dur) (hto : c.toNs = c.fromNs + (n : Int) * dur)
+    (rc : Read.Ctx) (hrf : rc.fromNs = c.fromNs) (hrt : rc.toNs = c.toNs)
+    (hok : MetricOk E rc (unwrapPlan lbl fn dur g?) (chRows E.num o c d ms (fs.map .fl)))
+    (hord : (fn = .firstOverTime ∨ fn = .lastOverTime) →
+      TsOrdered rc.orderAsc (optByWithout E (g?.map toBW) (unwrapStage E lbl (chRows E.num o c d ms (fs.map .fl)))) ∧
+      ∀ e ∈ optByWithout E (g?.map toBW) (unwrapStage E lbl (chRows E.num o c d ms (fs.map .fl))),
+        ∀ e' ∈ optByWithout E (g?.map toBW) (unwrapStage E lbl (chRows E.num o c d ms (fs.map .fl))),
+        e.labels = e'.labels → e.ts = e'.ts → e.val = e'.val)
+    (bs : Batches Rat) (hbs : bs.flatten = chRows E.num o c d ms (fs.map .fl))
+    (l : Read.Labels) (t : Int) (v : Rat) :
+    (∃ e ∈ (runPlan E rc (unwrapPlan lbl fn dur g?) bs).flatten, e.labels = l ∧ e.ts = t ∧ e.val = v) ↔
+    (∃ pt ∈ rangePoints o c d ⟨.unwrap fn' label, ⟨ms, fs⟩, dur, none, g?, none⟩ c.fromNs c.toNs,
+        canonLabels (asMap pt.labels) = l ∧ pt.ts = t ∧ pt.value = v) := by
+  have hcounts : unwrapCounts fn = true := by cases fn <;> simp [toUnwrap, unwrapCounts] at hfn ⊢
+  have hrun := metricPlan_meets_logql E h0 rc (unwrapPlan lbl fn dur g?) rfl bs
+    (by rw [hbs]; exact chRows_proper E.num o c d ms _) (by rw [hbs]; exact hok)
+  rw [hrun, hbs]
+  have hrows : (chRows E.num o c d ms (fs.map .fl)).Perm ((baseX o c d ms (fs.map .fl)).map (scanX (ratOps parse))) := by
+    simp only [chRows, planLogX_correct o c hn d ⟨ms, fs.map .fl⟩ false hm, hE]
+    exact scanRows_evalLogX_perm (ratOps parse) o c d ms (fs.map .fl)
+  have hva := valAgree_all o parse dur rc.orderAsc fn fn' hfn _ hord
+  have := unwrap_agree parse o c d hd ms fs E hE label lbl hlbl hent hnum (dirFn rc.orderAsc fn) fn' g? hgk dur k n hdur hfrom hto
+    _ hrows hva l t v
+  have hdc : unwrapCounts (dirFn rc.orderAsc fn) = true ∨ True := Or.inr trivial
+  simp only [evalPlan, unwrapPlan, Stages.stages, List.foldl_cons, List.foldl_nil, Stages.stage, hcounts, if_true, optCompare,
+    hrf, hrt, hE] at this ⊢
+  exact this
+
+/-- **engines_agree_byWithout** — the instance of `engines_agree_unwrapAgg` with a grouping clause written on the range
+    aggregation (`sum_over_time(… | unwrap x [d]) by (a)`; on a plain range function the clause is ignored by both
+    engines): the in-process `ByWithoutPlanner` (cut the labels, recompute the fingerprint, series = kept label set) and
+    ClickHouse's `ByWithoutPlanner.processSimple` (`mapFilter` + `cityHash64`, series = hash of the kept labels) produce
+    the same series with the same samples. A `without` read as `by` in process changes the kept sets, hence the left side. -/
+theorem engines_agree_byWithout (parse : Bytes → Option Rat) (o : Oracles) (E : Env Rat) (hE : E.num = ratOps parse)
+    (h0 : E.o.isNum [] = false) (c : LogQL.Ctx) (hn : c.namesOk) (d : LokiDb) (hd : SeriesStoreOk o c d)
+    (ms : List Matcher) (hm : ms.length ≤ 63) (fs : List Stage)
+    (label : String) (lbl : Bytes) (hlbl : label.toUTF8.toList = lbl) (hent : label = "_entry" ↔ lbl = entryKey)
+    (hnum : ∀ s : Bytes, o.toFloat s = ((if s = [] then none else parse s).getD 0))
+    (fn : Read.UnwrapFn) (fn' : LogQL.UnwrapFn) (hfn : toUnwrap fn = some fn') (gg : Grouping)
+    (hgk : GroupHashOk o c d ⟨ms, fs⟩ gg)
+    (dur k n : Nat) (hdur : 0 < dur) (hfrom : c.fromNs = (k : Int) * dur) (hto : c.toNs = c.fromNs + (n : Int) * dur)
+    (rc : Read.Ctx) (hrf : rc.fromNs = c.fromNs) (hrt : rc.toNs = c.toNs)
+    (hok : MetricOk E rc (unwrapPlan lbl fn dur (some gg)) (chRows E.num o c d ms (fs.map .fl)))
+    (hord : (fn = .firstOverTime ∨ fn = .lastOverTime) →
+      TsOrdered rc.orderAsc (optByWithout E (some (toBW gg)) (unwrapStage E lbl (chRows E.num o c d ms (fs.map .fl)))) ∧
+      ∀ e ∈ optByWithout E (some (toBW gg)) (unwrapStage E lbl (chRows E.num o c d ms (fs.map .fl))),
+        ∀ e' ∈ optByWithout E (some (toBW gg)) (unwrapStage E lbl (chRows E.num o c d ms (fs.map .fl))),
+        e.labels = e'.labels → e.ts = e'.ts → e.val = e'.val)
+    (bs : Batches Rat) (hbs : bs.flatten = chRows E.num o c d ms (fs.map .fl))
+    (l : Read.Labels) (t : Int) (v : Rat) :
+    (∃ e ∈ (runPlan E rc ⟨[.unwrap lbl], some (.unwrap fn, dur), some ⟨gg.isBy, groupingKeys gg⟩, none, none⟩ bs).flatten,
+        e.labels = l ∧ e.ts = t ∧ e.val = v) ↔
+    (∃ pt ∈ rangePoints o c d ⟨.unwrap fn' label, ⟨ms, fs⟩, dur, none, some gg, none⟩ c.fromNs c.toNs,
+        canonLabels (asMap pt.labels) = l ∧ pt.ts = t ∧ pt.value = v) :=
+  engines_agree_unwrapAgg parse o E hE h0 c hn d hd ms hm fs label lbl hlbl hent hnum fn fn' hfn (some gg)
+    (fun g' hg' => by cases hg'; exact hgk) dur k n hdur hfrom hto rc hrf hrt hok hord bs hbs l t v
+
+/-- **engines_agree_vectorAgg — sum / min / max / avg / count, with `by`, `without` or no grouping clause** (the vector
+    aggregations both engines implement; `stddev`/`stdvar` and `topk`/`bottomk` exist only in ClickHouse and are refused in
+    process: `gen_facts_agg`). The stage on the same matrix: `pts` is the matrix ClickHouse has in front of `AggOpPlanner`
+    (C08: the points of the range stage after its comparison — `rangePoints`, which `engines_agree_rangeAgg` /
+    `engines_agree_unwrapAgg` relate to the in-process range aggregation), `rows` the same samples as entries of the
+    in-process engine, in any order. In process: the by/without planner `planAggregators` puts in front of the aggregation
+    — `by ()` when no clause is written (`Read.planVecGrouping`, after the `fix:`) — and `AggOpPlanner`'s reading
+    (`aggregate` by label set with `vecValue`, which `stage_meets_logql_vectorAgg` / `metricPlan_meets_logql` prove the bucket
+    machine computes); ClickHouse: `LogQL.aggStage`, which C08 `plan_metric_correct` / `vector_agg` prove the SQL of
+    `ByWithoutPlanner` + `AggOpPlanner` computes. Same series (kept label set), same timestamps, same values. Hypotheses:
+    exact rationals; the points lie on the bucket grid; label documents without a repeated name; cityHash64 separates the
+    kept label sets (`hgk`). Not a whole-plan statement: the composition with the inner range aggregation (a permutation
+    between the two inner matrices) is checked by the `engines-metric` stream only. -/
+theorem engines_agree_vectorAgg (parse : Bytes → Option Rat) (o : Oracles) (c : LogQL.Ctx) (d : LokiDb) (q : LogQuery) (E : Env Rat)
+    (a : VecAgg) (fn : VecFn) (hfn : toVec fn = a.fn) (pts : List Pt) (grid : Grid)
+    (hgridpts : ∀ p ∈ pts, ∃ i, i < grid.n ∧ grid.bucket p.ts = some i ∧ p.ts = grid.start + (i : Int) * grid.dur)
+    (hinj : ∀ i j : Nat, grid.start + (i : Int) * grid.dur = grid.start + (j : Int) * grid.dur → i = j)
+    (hnd : ∀ p ∈ pts, ∃ m, ptLabels o c d q p = .map m ∧ NodupKeys m)
+    (hgk : ∀ p ∈ pts, ∀ p' ∈ pts,
+      ((canonLabels (asMap (ptLabels o c d q p))).filter (fun kv => (groupingKeys (aggGrouping a)).contains kv.1 == (aggGrouping a).isBy) =
+       (canonLabels (asMap (ptLabels o c d q p'))).filter (fun kv => (groupingKeys (aggGrouping a)).contains kv.1 == (aggGrouping a).isBy)) ↔
+      (regroup o (aggGrouping a) (ptLabels o c d q p)).1 = (regroup o (aggGrouping a) (ptLabels o c d q p')).1)
+    (rows : List (Entry Rat)) (hrows : rows.Perm (pts.map (scanPt o c d q)))
+    (l : Read.Labels) (t : Int) (v : Rat) :
+    (∃ e ∈ (aggregate (fun e : Entry Rat => e.labels) grid (vecValue (ratOps parse) fn)
+        (optByWithout E (planVecGrouping ((chosenGrouping a.byPrefix a.bySuffix).map toBW)) rows)).flatten,
+        e.labels = l ∧ e.ts = t ∧ e.val = v) ↔
+    (∃ pt ∈ aggStage o c d q a pts, canonLabels (asMap pt.labels) = l ∧ pt.ts = t ∧ pt.value = v) :=
+  vec_agree parse o c d q E a fn hfn pts grid hgridpts hinj hnd hgk rows hrows l t v
+
+/-- non-vacuity: `sum(…)` without clause over two streams' points at one timestamp — one series `{}` with the sum, on both
+    sides (the in-process side computed with the planned `by ()`) -/
+example :
+    let pts : List Pt := [⟨.int 1, .map [([97], [98])], 0, 2⟩, ⟨.int 2, .map [([97], [99])], 0, 3⟩]
+    (aggStage cxO ⟨0, 1, 0, false, 1, false, "g", "s", "t", "t"⟩ ⟨[], [], []⟩ ⟨[], []⟩ ⟨.sum, none, ⟨.lra .rate, ⟨[], []⟩, 1, none, none, none⟩, none, none⟩ pts).map
+        (fun p => (p.labels, p.ts, p.value)) = [(.map [], 0, 5)] ∧
+    ((aggregate (fun e : Entry Rat => e.labels) ⟨0, 1, 1⟩ (vecValue (ratOps (fun _ => none)) .sum)
+        (optByWithout ⟨cxO, ratOps (fun _ => none), fun _ => .bad, fun _ => false, fun _ => [], fun _ _ => none, fun _ => 0⟩
+          (planVecGrouping none)
+          (pts.map (scanPt cxO ⟨0, 1, 0, false, 1, false, "g", "s", "t", "t"⟩ ⟨[], [], []⟩ ⟨[], []⟩)))).flatten.map
+        (fun e => (e.labels, e.ts, e.val))) = [([], 0, 5)] := by
+  decide +kernel
+
 /-! ### the recorded finding: a step above the range -/
 /-- `clickhouse_planner.StepFixPlanner` on the matrix of the range / vector aggregation (rows ordered by series, then time):
     when the step is greater than the range, one row per (series, step bucket `intDiv(ts, step) * step`) with the value of
@@ -1281,6 +1481,31 @@ theorem unsupported_functions_refused :
     cases fn <;> simp [Plan.accepted, h, rangeCounts]
   · intro p fn dur h
     cases fn <;> simp [Plan.accepted, h, unwrapCounts]
+
+/-- **what only ClickHouse implements is refused in process, and the two engines divide and group alike** (regenerated
+    from `internal_planner`): `topk`/`bottomk` and `quantile_over_time` are refused by `planAggregators`, `stddev`/`stdvar` by
+    `AggOpPlanner.Process` (NotSupported: a script handed over with one of them fails instead of answering differently —
+    no `engines_agree_*` for them); the three per-second functions divide by the range in nanoseconds / 1e9 (what
+    `ratOps.durSeconds` and C08's `perSecond` say; the millisecond truncation is fixed); a vector aggregation without
+    by/without is planned behind `ByWithoutPlanner{By: true}` — `by ()`, one series with the empty label set, as
+    `clickhouse_planner.planAgg` does (`Read.planVecGrouping`, C08 `vector_agg_ungrouped`). -/
+theorem gen_facts_agg :
+    Gen.InternalAgg.rateDivisions =
+      ["LRAPlanner:rate:stream.values[i] /= float64(l.Duration.Nanoseconds()) / 1e9",
+       "LRAPlanner:bytes_rate:stream.values[i] /= float64(l.Duration.Nanoseconds()) / 1e9",
+       "UnwrapAggPlanner:rate:stream.values[i] /= float64(l.Duration.Nanoseconds()) / 1e9"] ∧
+    Gen.InternalAgg.vecGrouping =
+      ["script.ByOrWithoutPrefix == nil && script.ByOrWithoutSuffix == nil",
+       "proc = &ByWithoutPlanner{GenericPlanner: GenericPlanner{proc}, By: true}",
+       "proc = planByWithout(proc, script.ByOrWithoutPrefix, script.ByOrWithoutSuffix)"] ∧
+    Gen.InternalAgg.planRefusals =
+      ["*logql_parser.QuantileOverTime: return nil, &shared.NotSupportedError{Msg: \"quantile_over_time is not supported\"}",
+       "*logql_parser.TopK: return nil, &shared.NotSupportedError{Msg: \"topk is not supported for the current request\"}"] ∧
+    Gen.InternalAgg.vecRefused = ["stddev", "stdvar"] ∧
+    Gen.InternalPlanner.vecCases = ["sum", "min", "max", "avg", "count"] ∧
+    (∀ w : Option ByWithout, planVecGrouping w = some (w.getD ⟨true, []⟩)) ∧
+    (∀ parse : Bytes → Option Rat, ∀ d : Nat, (ratOps parse).durSeconds (d : Int) = secondsOf d) :=
+  ⟨rfl, rfl, rfl, rfl, rfl, fun _ => rfl, fun _ _ => by simp [ratOps, secondsOf]⟩
 
 /-- the parameter handling of the parser stage as the source has it now — what `paramFields`, `jsonParams`,
     `aheadsFor`, `setAll`, `logfmtFields`, `parserFn` mirror: `logfmtFields` is filled only when there are parameters,
